@@ -516,3 +516,21 @@ B('d6_b_server_error_init_pops_message_and_keeps_it', ['C09'], 'R09.a',
   (E, "    def __init__(self, detail=None, **kwargs):\n        self.exc_info = kwargs.pop('exc_info', None)\n        super(InternalServerError, self).__init__(detail, **kwargs)\n",
       "    def __init__(self, *args, **kwargs):\n        self.exc_info = kwargs.pop('exc_info', None)\n        message = kwargs.pop('message', self.message)\n"
       "        super(InternalServerError, self).__init__(*args, **kwargs)\n"))
+
+# ------------------------------------------------------------------ seventh pass: a constructor does not overwrite what the next one stored
+_ISE_GUARD = "        if self.error_type is None:\n            try:\n                exc_type_name = self.exc_info.exc_type\n                exc_type = getattr(exceptions, exc_type_name)\n"
+_ISE_TAIL = "                self.error_type = STDLIB_EXC_URL + exc_type.__name__\n            except Exception:\n                pass\n"
+T('d7_t_error_type_filled_when_falsy', ['C09'], (E, "        if self.error_type is None:\n            try:\n", "        if not self.error_type:\n            try:\n"))
+T('d7_t_error_type_early_return_when_given', ['C09'],
+  (E, _ISE_GUARD + _ISE_TAIL, "        if self.error_type is not None:\n            return\n        try:\n            exc_type_name = self.exc_info.exc_type\n"
+                              "            exc_type = getattr(exceptions, exc_type_name)\n            self.error_type = STDLIB_EXC_URL + exc_type.__name__\n"
+                              "        except Exception:\n            pass\n"))
+B('d7_b_error_type_always_derived', ['C09'], 'R09.a',
+  (E, _ISE_GUARD + _ISE_TAIL, "        try:\n            exc_type_name = self.exc_info.exc_type\n            exc_type = getattr(exceptions, exc_type_name)\n"
+                              "            self.error_type = STDLIB_EXC_URL + exc_type.__name__\n        except Exception:\n            pass\n"))
+B('d7_b_error_type_guard_inverted', ['C09'], 'R09.a', (E, "        if self.error_type is None:\n            try:\n", "        if self.error_type is not None:\n            try:\n"))
+B('d7_b_server_error_forces_its_code', ['C09'], 'R09.a', (E, _ISE_SUPER, _ISE_SUPER + "        self.code = type(self).code\n"))
+B('d7_b_debug_not_found_resets_message', ['C09'], 'R09.a', (E, _CNF_SUPER, _CNF_SUPER + "        self.message = 'Not found'\n"))
+B('d7_b_method_not_allowed_detail_after_super', ['C09'], 'R09.a',
+  (E, "            self.detail = '%s Allowed methods: %r' % (self.detail,\n                                                      method_list)\n        super(MethodNotAllowed, self).__init__(*args, **kwargs)\n",
+      "        super(MethodNotAllowed, self).__init__(*args, **kwargs)\n        if self.allowed_methods:\n            self.detail = 'Allowed methods: %r' % (method_list,)\n"))
